@@ -369,6 +369,8 @@ impl ConvexCell<WithoutFaces> {
             let mut clip = p.clip(self.vertices[i].loc);
             if clip == 0. {
                 // Do the equivalent in-sphere test to determine whether a vertex is clipped
+                #[cfg(meshless_voro_verif)]
+                super::verif_hooks::count_exact_test();
                 let dual = self.vertices[i].dual;
                 let a = simulation_boundary.iloc(self.loc);
                 let b = simulation_boundary
